@@ -27,8 +27,9 @@ NAMES = 'abcde'
 LINE = re.compile(r'^(\S+)\s.*?<\w+ `([^`]*)`>')
 
 
-def build(place, toppure, n, edges):
-    jobs = [SJob(NAMES[i], i) for i in range(n)]
+def build(place, toppure, n, edges, hollow=None):
+    jobs = [SJob(NAMES[i], i) if i != hollow else SSched(NAMES[i], i)
+            for i in range(n)]
     for i, j in edges:
         if i == j:
             jobs[j].required.add(jobs[i])
@@ -103,6 +104,7 @@ def check_list(top, all_edges, nested_chain):
     ids = {}
     order = []
     open_scheds = []
+    schednames = {s_.vname for s_ in nested_chain}
     inside = collections.defaultdict(list)
     for l in lines:
         toks = l.split()
@@ -128,7 +130,7 @@ def check_list(top, all_edges, nested_chain):
         order.append(label)
         for s in open_scheds:
             inside[s].append(label)
-        if label in ('N', 'M'):
+        if label in schednames:
             open_scheds.append(label)
     nums = [ids[l] for l in order if l in ids]
     if nums != list(range(1, len(nums) + 1)):
@@ -152,10 +154,12 @@ def check_list(top, all_edges, nested_chain):
     return msgs
 
 
-def _one_graph(place, toppure, n, edges, res):
+def _one_graph(place, toppure, n, edges, res, hollow=None):
     rep = {'kind': 'graph', 'place': place, 'toppure': toppure, 'n': n,
-           'edges': [list(e) for e in edges]}
-    top, holder, jobs, chain = build(place, toppure, n, edges)
+           'edges': [list(e) for e in edges], 'hollow': hollow}
+    top, holder, jobs, chain = build(place, toppure, n, edges, hollow)
+    if hollow is not None:
+        chain = chain + [jobs[hollow]]
     named = {(NAMES[i], NAMES[j]) for i, j in edges}
     ok = seq.acyclic({NAMES[i] for i in range(n)}, named)
     msgs = []
@@ -192,13 +196,16 @@ def _one_graph(place, toppure, n, edges, res):
         key = 'c15:' + m.split('(')[0].split(' ')[0] + (
             ':nested' if place != 'top' else '')
         seq.add_violation(res, key, "%s | %s graph on %d nodes, edges "
-                          "(i,j: j requires i) %s, top=%s"
+                          "(i,j: j requires i) %s, top=%s%s"
                           % (m, place, n, sorted(edges),
-                             'PureScheduler' if toppure else 'Scheduler'), rep)
+                             'PureScheduler' if toppure else 'Scheduler',
+                             '' if hollow is None else
+                             ', node %s is an empty nested Scheduler'
+                             % NAMES[hollow]), rep)
 
 
-def one_graph(place, toppure, n, edges, res):
-    _, hang = seq.guarded(_one_graph, place, toppure, n, edges, res)
+def one_graph(place, toppure, n, edges, res, hollow=None):
+    _, hang = seq.guarded(_one_graph, place, toppure, n, edges, res, hollow)
     if hang:
         seq.add_violation(res, 'c15:hang', "%s | %s graph on %d nodes, edges "
                           "(i,j: j requires i) %s, top=%s"
@@ -305,6 +312,10 @@ def run_item(item):
         if res.get('abort'):
             break
         one_graph(item['place'], item['toppure'], item['n'], edges, res)
+        if item['n'] <= 3 and not item['loops']:
+            for h in range(item['n']):
+                one_graph(item['place'], item['toppure'], item['n'], edges,
+                          res, hollow=h)
     res['scenarios'] = hi - lo
     res['outcomes'] = hi - lo
     if lo == 0 and item['n'] == 3 and not item['loops']:
@@ -345,7 +356,7 @@ def replay(rep):
         _, _, _, msgs = apply_history(rep['n'], hist)
         return sorted(msgs)
     one_graph(rep['place'], rep['toppure'], rep['n'],
-              [tuple(e) for e in rep['edges']], res)
+              [tuple(e) for e in rep['edges']], res, rep.get('hollow'))
     return sorted(v['msg'] for v in res['violations'])
 
 
